@@ -155,13 +155,14 @@ const (
 	OpAvgAdjust
 	OpSpawn     // main: start client N (clients not spawned explicitly start before main's ops)
 	OpJoinFirst // main: wait for clients 0..N-1
+	OpCloseRefresh // close the manual refresh channel (no refresh request is sent afterwards)
 	nOps
 )
 
 var OpNames = [...]string{"Add", "IncrInt64", "IncrBy", "Increment", "EwmaIncrInt64", "EwmaIncrBy", "EwmaIncrement", "SetCurrent",
 	"EwmaSetCurrent", "SetTotal", "EnableTriggerComplete", "SetRefill", "Abort", "SetPriority", "UpdateBarPriority", "Write",
 	"Current", "Completed", "Aborted", "Completed+Aborted", "IsRunning", "ID", "BarWait", "Refresh", "CloseDelay", "CancelCtx",
-	"Shutdown", "Sleep", "ReadNotifier", "Proxy", "Wait", "Join", "Fair", "TraverseDecorators", "Aborted+Completed", "DecoratorAverageAdjust", "Spawn", "JoinFirst"}
+	"Shutdown", "Sleep", "ReadNotifier", "Proxy", "Wait", "Join", "Fair", "TraverseDecorators", "Aborted+Completed", "DecoratorAverageAdjust", "Spawn", "JoinFirst", "CloseRefreshChannel"}
 
 // Op is one client operation.
 type Op struct {
